@@ -100,14 +100,14 @@ PROPS = {
         "explanation": "precedence-table and operator theorems on the model + exhaustive depth-1 and random deeper trees judged against a Go reference evaluator in three parenthesisations",
     },
     "C08": {
-        "level": "translation_validation",
+        "level": "proof",
         "cone": ["model/Eval.v", "proofs/EvalProofs.v", "props/C08.v"],
         "trusted_base": COMMON_TB + ["model/Eval.v (eval_for, for_slice/for_items/for_iter, eval_stmts with the break/continue/return objects) transcribes evalForExpression and evalBlockStatement; map iteration order is the association-list order of the model and is compared only as a multiset"],
         "assumptions": [],
         "explanation": "loop theorems on the model + generated loop bodies judged against an element-by-element Go reference interpreter (loop unrolling) and re-evaluated by the model",
     },
     "C01": {
-        "level": "translation_validation",
+        "level": "proof",
         "cone": ["model/Text.v", "model/Value.v", "model/Eval.v", "proofs/TextProofs.v", "proofs/EvalProofs.v", "props/C01.v"],
         "trusted_base": COMMON_TB + ["the sink (write) and html_escape of model/Value.v and model/Text.v transcribe compiler.write and text/template.HTMLEscapeString; values with a String() method that are not strings (fmt.Stringer) are emitted unescaped by the sink and are treated as trusted (stated, not hidden)"],
         "assumptions": [],
@@ -121,7 +121,7 @@ PROPS = {
         "explanation": "lexer theorems (text scanning vs the reference scanner, tag-free identity, string literals) + exhaustive short strings and random interleavings compared with the concatenation of texts and values",
     },
     "C09": {
-        "level": "translation_validation", "cone": ["model/Ctx.v", "model/Eval.v", "proofs/CtxProofs.v", "proofs/EvalProofs.v", "props/C09.v"],
+        "level": "proof", "cone": ["model/Ctx.v", "model/Eval.v", "proofs/CtxProofs.v", "proofs/EvalProofs.v", "props/C09.v"],
         "trusted_base": COMMON_TB + ["model/Eval.v + model/Ctx.v transcribe the evaluator's scope handling (c.ctx swapping with deferred restore, New(), the data copy in for / index-callee / chained calls, BlockWith, contentFor closures, partial) ; tied to the code by the render correspondence"], "assumptions": ["helpers in a body do not write to outer context handles they were given (true of all shipped helpers)"],
         "explanation": "frame theorems on the model (bindings of pre-existing contexts unchanged by Set on a fresh child, cur restored) + generated scope nestings judged against an environment-chain reference",
     },
@@ -137,13 +137,13 @@ PROPS = {
         "explanation": "table theorems over the regenerated map-range sites + repeat / clone / cache histories with tree snapshots on the implementation, and the single model answer compared",
     },
     "C12": {
-        "level": "translation_validation", "cone": ["model/Eval.v", "proofs/EvalProofs.v", "props/C12.v"],
+        "level": "proof", "cone": ["model/Eval.v", "proofs/EvalProofs.v", "props/C12.v"],
         "trusted_base": COMMON_TB + ["bind_args / bind_fixed / bind_variadic / auto_arg of model/Eval.v transcribe the Go-function branch of evalCallExpression; reflect.AssignableTo is modelled by the assignable table over the shared type family", "silent zero-filling of up to two missing trailing parameters that are neither a map nor a helper context is modelled as the code does it and is part of the stated binding relation"],
         "assumptions": [],
         "explanation": "binding theorems on the model + exhaustive (signature x call shape) enumeration with recording helpers judged against a declarative binding written in Go",
     },
     "C17": {
-        "level": "translation_validation", "cone": ["model/Eval.v", "proofs/EvalProofs.v", "props/C17.v"],
+        "level": "proof", "cone": ["model/Eval.v", "proofs/EvalProofs.v", "props/C17.v"],
         "trusted_base": COMMON_TB + ["partial_call, block_with, block_in_child and the contentFor/contentOf cases of go_apply in model/Eval.v transcribe partial_helper.go, helper_context.go and helpers/content; text/template.JSEscapeString is re-implemented with unicode.IsPrint approximated (only U+2028/2029 non-printable): partial bodies are ASCII in the JS cases", "filepath.Ext re-implemented (ext_of)"],
         "assumptions": [],
         "explanation": "theorems relating block_with / partial_call to inline evaluation on the model + generated partial / layout / contentFor / block-helper uses compared with a second, inline run of the real engine",
